@@ -133,10 +133,27 @@ class World:
         return out
 
 
-def _fault_plan(f):
+def _victim_keys(scn):
+    f = scn.get('faults') or {}
+    v = f.get('only_key')
+    if v is None:
+        return None
+    t = scn['transfers'][v]
+    keys = set()
+    if t['op'] == 'upload':
+        keys.add(t.get('key', f'up{v}'))
+    elif t['op'] == 'copy':
+        keys.add(t.get('key', f'cp{v}'))
+        keys.add(t['src_key'])
+    else:
+        keys.add(t['key'])
+    return keys
+
+
+def _fault_plan(f, scn=None):
     if not f:
         return FaultPlan()
-    return FaultPlan(sites=f.get('sites', ()),
+    return FaultPlan(only_keys=_victim_keys(scn) if scn else None,sites=f.get('sites', ()),
                      retryable_kinds=tuple(f.get('retryable_kinds', (0,))),
                      short_sizes=tuple(f.get('short_sizes', (1,))),
                      max_body_retries=f.get('max_body_retries', 1),
@@ -148,9 +165,10 @@ def build_manager(w):
     sched = w.sched
     seed = scn.get('seed', 0)
     faults = scn.get('faults') or {}
-    plan = _fault_plan(faults)
+    plan = _fault_plan(faults, scn)
     w.client = FakeClient(w.s3, sched, plan=plan, rcc=scn.get('rcc', 'when_required'),
-                          body_read_size=scn.get('body_read_size'))
+                          body_read_size=scn.get('body_read_size'),
+                          stream_pattern=scn.get('stream_pattern', 'full'))
     w.source_client = w.client
     fs_sites = [s for s in faults.get('sites', ()) if s.startswith('fs:')]
     special = []
@@ -158,6 +176,8 @@ def build_manager(w):
         if t.get('dst') == 'special':
             special.append(os.path.join(w.scratch.path, f'dst{i}'))
     w.osutil = FaultyOSUtils(sched, fault_sites=fs_sites, special=special)
+    if faults.get('only_key') is not None:
+        w.osutil.only_prefix = (f"dst{faults['only_key']}", f"src{faults['only_key']}")
     for key, size in (scn.get('objects') or {}).items():
         w.s3.put(BUCKET, key, payload(size, seed, salt=len(key)))
     cfg = TransferConfig(**scn.get('config', {}))
@@ -189,6 +209,11 @@ def make_subs(w, t, idx):
     return subs
 
 
+def _is_victim(w, idx):
+    v = (w.scn.get('faults') or {}).get('only_key')
+    return v is None or v == idx
+
+
 def submit_transfer(w, idx):
     t = w.scn['transfers'][idx]
     m = w.manager
@@ -213,7 +238,7 @@ def submit_transfer(w, idx):
         else:
             fileobj = SourceStream(sched, data, seekable=(src == 'seekable'),
                                    start=t.get('start', 0), name=f'src{idx}',
-                                   fault=('src:read' in faults))
+                                   fault=('src:read' in faults and _is_victim(w, idx)))
             info['stream'] = fileobj
         fut = m.upload(fileobj, BUCKET, info['key'], extra_args=extra, subscribers=subs)
     elif op == 'download':
@@ -230,7 +255,7 @@ def submit_transfer(w, idx):
             fileobj = p
         else:
             fileobj = SinkStream(sched, seekable=(dst == 'seekable'), name=f'dst{idx}',
-                                 fault=('sink:write' in faults))
+                                 fault=('sink:write' in faults and _is_victim(w, idx)))
             info['stream'] = fileobj
         fut = m.download(BUCKET, key, fileobj, extra_args=extra, subscribers=subs)
     elif op == 'copy':
@@ -344,6 +369,16 @@ def user_script(w):
                 collect(w, i)
             except KeyboardInterrupt:
                 pass
+    # sliding windows of the manager, read through their public API while the
+    # scheduler is still alive
+    fw = []
+    try:
+        for tag, sem in m._request_executor._tag_semaphores.items():
+            if hasattr(sem, 'current_count'):
+                fw.append((sem.current_count(), m.config.max_in_memory_download_chunks))
+    except AttributeError:
+        pass
+    w.final_windows = fw
     w.script_done = True
 
 
